@@ -32,6 +32,8 @@ pub struct Case {
     pub param_carrier: &'static str,
     /// identifier of the struct variant in the *variant-field positions (helper types are named after it)
     pub variant_ident: &'static str,
+    /// the serde name of the target when `renamed`
+    pub renamed_to: &'static str,
 }
 
 const VARIANT_IDENTS: [&str; 5] = ["S", "URL", "Not_Found", "done", "Sv2x"];
@@ -61,7 +63,19 @@ pub fn gen(ch: &mut Chooser) -> Case {
     let prefixed = ch.flag("cfg");
     let param_carrier = if position.starts_with("param-") && position != "param-alias" { *ch.pick("param_carrier", &PARAM_CARRIERS) } else { "option" };
     let variant_ident = if position.ends_with("variant-field") || position == "two-params-variant-fields-reversed" { *ch.pick("variant_ident", &VARIANT_IDENTS) } else { "S" };
-    Case { kind, renamed, position, referrer_renamed, lang, prefixed, param_carrier, variant_ident }
+    Case { kind, renamed, position, referrer_renamed, lang, prefixed, param_carrier, variant_ident, renamed_to: "TgtRenamed" }
+}
+
+/// names on the backend's own list of words it writes in backticks (Swift is the one backend with such a list for types)
+const SWIFT_KEYWORD_NAMES: [&str; 6] = ["Any", "Self", "default", "protocol", "in", "self"];
+
+fn gen_keyword_named(ch: &mut Chooser) -> Case {
+    let renamed_to = *ch.pick("target_emitted_name", &SWIFT_KEYWORD_NAMES);
+    let kind = *ch.pick("target_kind", &TARGET_KINDS);
+    let position = *ch.pick("position", &POSITIONS);
+    let referrer_renamed = ch.flag("referrer_renamed");
+    let prefixed = ch.flag("cfg");
+    Case { kind, renamed: true, position, referrer_renamed, lang: Lang::Swift, prefixed, param_carrier: "option", variant_ident: "S", renamed_to }
 }
 
 fn target_item(c: &Case) -> Item {
@@ -78,7 +92,7 @@ fn target_item(c: &Case) -> Item {
         _ => Item::new("Tgt", IKind::Alias(Ty::Prim("String"))),
     };
     if c.renamed {
-        it.rename = Some("TgtRenamed".into());
+        it.rename = Some(c.renamed_to.into());
     }
     it
 }
@@ -485,6 +499,22 @@ pub fn run(args: &[String]) -> i32 {
         report::threads(),
         u64::MAX,
     );
+    {
+        let (accs, stats) = explore(
+            |ch| {
+                gen_keyword_named(ch);
+            },
+            |ch, acc: &mut Acc| {
+                let c = gen_keyword_named(ch);
+                check_case(&c, &ch.choices(), acc);
+            },
+            Mode::Product,
+            2,
+            report::threads(),
+            u64::MAX,
+        );
+        merge(&mut rep, "swift_keyword_named_targets", accs, &stats, json!({"target_emitted_names": SWIFT_KEYWORD_NAMES, "target_kinds": TARGET_KINDS, "positions": POSITIONS, "referrer_renamed": [false, true], "language": "swift", "configs": 2}));
+    }
     merge(&mut rep, "references", accs, &stats, json!({"target_kinds": TARGET_KINDS, "target_renamed": [false, true], "positions": POSITIONS, "generic_parameter_carriers": PARAM_CARRIERS, "struct_variant_identifiers": VARIANT_IDENTS, "referrer_renamed": [false, true], "languages": 6, "configs": 2}));
     {
         let (accs, stats) = explore(
